@@ -108,6 +108,13 @@ def cmd_run(prop, tier):
     mod = importlib.import_module('harness.' + prop.lower())
     from sx import known, adapt_list
     shards = mod.shards(tier)
+    if tier == 'thorough':
+        # size the thorough tier by total wall time: cap the per-shard budget so that the worst case (every shard
+        # running into its budget) stays near the target; shards that exhaust their tree earlier are unaffected
+        target = float(os.environ.get('VERIF_THOROUGH_WALL', '1500'))
+        cap = max(15.0, target * NPROC / max(1, len(shards)))
+        for sp in shards:
+            sp['budget_s'] = min(sp['budget_s'], cap)
     results = run_shards(prop, shards, seed)
     t_shards = time.monotonic() - t0
     kf = known.load(prop)
